@@ -43,7 +43,10 @@ func IsFinite(f float64) bool                                  { return true }
 func SetClockMs(t uint64) {}
 func SetClockNs(t uint64) {}
 func LastSleepNs() int64  { return 0 }
-func SleepCount() int     { return 0 }
+
+// FrozenClockNs returns the value set by the last SetClockNs/SetClockMs.
+func FrozenClockNs() uint64 { return 0 }
+func SleepCount() int       { return 0 }
 
 // ---- threads ----
 func Spawn(f func())    { f() }
